@@ -4,7 +4,7 @@ cd "$(dirname "$0")/.."
 mkdir -p /tmp/runall
 for id in $(python3 -c "import json;print(' '.join(c['property_id'] for c in json.load(open('MANIFEST.json'))['checks']))"); do
   s=$(date +%s)
-  timeout 1500 bin/check $id --tier ${1:-quick} > /tmp/runall/$id.log 2>&1
+  timeout $([ "${1:-quick}" = thorough ] && echo 5400 || echo 1500) bin/check $id --tier ${1:-quick} > /tmp/runall/$id.log 2>&1
   rc=$?
   e=$(date +%s)
   echo "$id rc=$rc $((e-s))s $(grep -c '^VIOLATION' /tmp/runall/$id.log) violations, $(grep -c '^KNOWN-FINDING' /tmp/runall/$id.log) known; $(tail -1 /tmp/runall/$id.log | cut -c1-120)"
